@@ -1,10 +1,134 @@
 """Regeneration of harness inputs from /repo's current source (run before every build)."""
-import os
+import hashlib, os, re, itertools
 
 
 def generate(crate, repo, outdir):
     info = {}
     os.makedirs(outdir, exist_ok=True)
     if crate == "core":
-        pass
+        info.update(gen_c14_table(outdir))
+    if crate == "kern":
+        import gen_kern
+        info.update(gen_kern.generate(repo, outdir, os.path.join(os.path.dirname(outdir), "..", "drivers")))
     return info
+
+
+# ----------------------------------------------------------------------------------------------
+# C14: constructor-closed type universe over the real `Identifiable::STABLE_TYPE_ID` consts
+
+LEAVES_SIZED = [
+    "u8", "u16", "u32", "u64", "u128", "usize", "i8", "i16", "i32", "i64", "i128", "isize",
+    "bool", "char", "f32", "f64", "String", "()", "std::time::Duration", "std::path::PathBuf",
+    "std::num::NonZeroU8", "std::num::NonZeroI64", "std::sync::atomic::AtomicU8", "std::ops::RangeFull",
+    "std::cmp::Ordering", "std::ffi::OsString", "std::ffi::CString",
+    "crate::c14::L1", "crate::c14::m1::Same", "crate::c14::m2::Same",
+]
+LEAVES_UNSIZED = ["str", "std::path::Path", "std::ffi::OsStr", "std::ffi::CStr"]
+
+# (template, accepts ?Sized argument)
+UNARY = [
+    ("Vec<{}>", False), ("Option<{}>", False), ("Box<{}>", True), ("std::sync::Arc<{}>", True),
+    ("std::rc::Rc<{}>", True), ("std::sync::Weak<{}>", True), ("std::rc::Weak<{}>", True),
+    ("[{}; 0]", False), ("[{}; 1]", False), ("[{}; 2]", False), ("[{}; 3]", False),
+    ("&'static {}", True), ("&'static mut {}", True), ("*const {}", True), ("*mut {}", True),
+    ("std::cell::Cell<{}>", True), ("std::cell::RefCell<{}>", True), ("std::cell::UnsafeCell<{}>", True),
+    ("std::cell::OnceCell<{}>", False), ("std::sync::Mutex<{}>", True), ("std::sync::RwLock<{}>", True),
+    ("std::sync::OnceLock<{}>", False), ("std::marker::PhantomData<{}>", True),
+    ("std::mem::ManuallyDrop<{}>", True), ("std::mem::MaybeUninit<{}>", False),
+    ("std::ptr::NonNull<{}>", True), ("std::num::Wrapping<{}>", False), ("std::num::Saturating<{}>", False),
+    ("std::sync::atomic::AtomicPtr<{}>", False), ("std::ops::Range<{}>", False),
+    ("std::ops::RangeFrom<{}>", False), ("std::ops::RangeInclusive<{}>", False),
+    ("std::ops::RangeTo<{}>", False), ("std::ops::RangeToInclusive<{}>", False), ("std::ops::Bound<{}>", False),
+    ("std::collections::BTreeSet<{}>", False), ("std::collections::VecDeque<{}>", False),
+    ("({},)", False), ("crate::c14::G1<{}>", False), ("crate::c14::H1<{}>", False),
+    ("std::pin::Pin<{}>", False), ("std::hash::BuildHasherDefault<{}>", False),
+]
+UNARY_TO_UNSIZED = [("[{}]", False)]
+BINARY = ["Result<{}, {}>", "({}, {})", "std::collections::BTreeMap<{}, {}>", "crate::c14::G2<{}, {}>",
+          "std::collections::HashSet<{}, {}>", "crate::c14::H2<{}, {}>"]
+TERNARY = ["({}, {}, {})", "std::collections::HashMap<{}, {}, {}>"]
+
+
+def build_universe():
+    types = []  # (expr, sized)
+    seen = set()
+
+    def add(t, sized=True):
+        if t not in seen:
+            seen.add(t)
+            types.append((t, sized))
+
+    for l in LEAVES_SIZED:
+        add(l)
+    for l in LEAVES_UNSIZED:
+        add(l, False)
+    level0 = list(types)
+    # depth 1: every unary constructor on every leaf
+    level1 = []
+    for tmpl, unsized_ok in UNARY:
+        for t, sized in level0:
+            if sized or unsized_ok:
+                e = tmpl.format(t)
+                add(e)
+                level1.append(e)
+    for tmpl, _ in UNARY_TO_UNSIZED:
+        for t, sized in level0:
+            if sized:
+                add(tmpl.format(t), False)
+    # binary constructors on ordered pairs (argument swaps present)
+    pair_base = ["u8", "u16", "String", "()", "bool", "crate::c14::m1::Same", "crate::c14::m2::Same", "Vec<u8>", "Option<u8>", "(u8,)"]
+    for tmpl in BINARY:
+        for a, b in itertools.product(pair_base, repeat=2):
+            add(tmpl.format(a, b))
+    tri_base = ["u8", "u16", "String", "()"]
+    for tmpl in TERNARY:
+        for a, b, c in itertools.product(tri_base, repeat=3):
+            add(tmpl.format(a, b, c))
+    # tuples of arity 1..4 incl. association variants
+    for a, b, c in itertools.product(["u8", "u16", "bool"], repeat=3):
+        add(f"(({a}, {b}), {c})")
+        add(f"({a}, ({b}, {c}))")
+        add(f"(({a},), {b}, {c})")
+        add(f"({a}, {b}, {c}, {a})")
+        add(f"[{a}; 2]")
+        add(f"(({a}, {b}), ({c},))")
+    add("(u8, u8, u8, u8, u8, u8, u8, u8, u8, u8, u8, u8, u8, u8, u8, u8)")
+    add("(u8, u8, u8, u8, u8, u8, u8, u8, u8, u8, u8, u8, u8, u8, u8)")
+    # depth 2: a subset of unary constructors over a subset of depth-1 types
+    ctor2 = ["Vec<{}>", "Option<{}>", "Box<{}>", "std::sync::Arc<{}>", "[{}; 1]", "[{}; 2]", "&'static {}",
+             "std::cell::RefCell<{}>", "std::ops::Range<{}>", "({},)", "crate::c14::G1<{}>", "crate::c14::H1<{}>",
+             "std::collections::BTreeSet<{}>", "std::num::Wrapping<{}>", "std::marker::PhantomData<{}>"]
+    arg2 = [e for e in level1 if re.search(r"(<|\[|\(|&'static |\*const )(u8|String|bool|crate::c14::m1::Same)(>|; \d\]|,\))?$", e)]
+    for tmpl in ctor2:
+        for e in arg2:
+            add(tmpl.format(e))
+    # depth-3 slice
+    for x in ["u8", "String"]:
+        for c1, c2, c3 in itertools.product(["Vec<{}>", "Option<{}>", "Box<{}>", "({},)", "crate::c14::G1<{}>"], repeat=3):
+            add(c1.format(c2.format(c3.format(x))))
+    # binary over depth-1 arguments
+    for tmpl in ["Result<{}, {}>", "({}, {})", "crate::c14::G2<{}, {}>"]:
+        for a, b in itertools.product(["Vec<u8>", "Option<u8>", "Box<u8>", "(u8,)", "[u8; 1]", "crate::c14::G1<u8>"], repeat=2):
+            add(tmpl.format(a, b))
+    return types
+
+
+def gen_c14_table(outdir):
+    types = build_universe()
+    n = len(types)
+    lines = ["// generated by lib/gen.py (C14 universe); ids are the real compile-time consts of /repo",
+             "use qbice_stable_type_id::Identifiable;",
+             f"pub const N: usize = {n};",
+             f"pub static TABLE: [u128; {n}] = ["]
+    for t, _ in types:
+        lines.append(f"    <{t} as Identifiable>::STABLE_TYPE_ID.as_u128(),")
+    lines.append("];")
+    lines.append(f"pub static NAMES: [&str; {n}] = [")
+    for t, _ in types:
+        lines.append(f'    "{t}",')
+    lines.append("];")
+    src = "\n".join(lines) + "\n"
+    p = os.path.join(outdir, "c14_table.rs")
+    if not os.path.exists(p) or open(p).read() != src:
+        open(p, "w").write(src)
+    return {"c14_universe_size": n, "c14_pairs": n * (n - 1) // 2}
